@@ -37,6 +37,10 @@ type c12Case struct {
 
 var c12Prior = []byte("object stored before the streaming upload")
 
+// c12PriorPart: an earlier, acknowledged upload of the part number a ViaPart case sends again
+// (longer than the grid's re-uploads, so that its storage could be reused for them)
+var c12PriorPart = bytes.Repeat([]byte("earlier part 1 / "), 6000)
+
 // c12Mutate damages a well-formed stream; it returns the stream and whether the
 // result is certainly malformed (false = it may still be a valid stream).
 func c12Mutate(stream []byte, payload []byte, mut string, k int) ([]byte, bool) {
@@ -146,6 +150,12 @@ func c12Check(cs c12Case) (ds []disc) {
 		}
 		uploadID = d.UploadId
 		rq.Query = s3x.Q("partNumber", "1", "uploadId", uploadID)
+		if cs.Prior {
+			// part 1 was uploaded (and acknowledged) before: a rejected re-upload must leave it as it is
+			if r := s3x.Do(st.Handler, &s3x.Req{Method: "PUT", Path: "/bk0/" + key, Query: rq.Query, Body: c12PriorPart}); r.Status != 200 {
+				panic("harness: prior part: " + r.String())
+			}
+		}
 	}
 	r := s3x.Do(st.Handler, rq)
 	if r.Panic != "" {
@@ -160,7 +170,23 @@ func c12Check(cs c12Case) (ds []disc) {
 			fail("listparts-failed", "ListParts after the part upload answered %s", lp)
 			return
 		}
-		if (r.Status == 200) != (len(pd.Parts) == 1) {
+		if cs.Prior && r.Status != 200 {
+			// the earlier part 1 must still be there, byte for byte: complete the upload with it
+			if len(pd.Parts) != 1 || pd.Parts[0].ETag != etagOf(c12PriorPart) || pd.Parts[0].Size != int64(len(c12PriorPart)) {
+				fail("rejected-part-changed-upload", "the re-upload of part 1 was answered %d; the upload now lists %+v, the earlier part 1 has %d bytes and ETag %s", r.Status, pd.Parts, len(c12PriorPart), etagOf(c12PriorPart))
+				return
+			}
+			cb := "<CompleteMultipartUpload><Part><PartNumber>1</PartNumber><ETag>" + xmlEsc(etagOf(c12PriorPart)) + "</ETag></Part></CompleteMultipartUpload>"
+			if c := s3x.Do(st.Handler, &s3x.Req{Method: "POST", Path: "/bk0/" + key, Query: s3x.Q("uploadId", uploadID), Body: []byte(cb)}); c.Status != 200 {
+				fail("complete-failed", "completing the upload with the earlier part answered %s", c)
+				return
+			}
+			if g := get(st, "bk0", key); g.Status != 200 || !bytes.Equal(g.Body, c12PriorPart) {
+				fail("rejected-part-corrupted-stored-part", "the re-upload of part 1 was rejected (%d), but the upload completed with the earlier part's ETag stores %d bytes (md5 %s) instead of the earlier part (%d bytes, md5 %s)%s", r.Status, len(g.Body), md5hex(g.Body), len(c12PriorPart), md5hex(c12PriorPart), firstDiff(g.Body, c12PriorPart))
+			}
+			return
+		}
+		if (r.Status == 200) != (len(pd.Parts) == 1) && !cs.Prior {
 			fail("part-bookkeeping", "the part upload answered %d and the upload now holds %d parts", r.Status, len(pd.Parts))
 			return
 		}
